@@ -88,6 +88,16 @@ func (L *Loaded) isRepoFunc(fn *ssa.Function) bool {
 	if p == nil && fn.Parent() != nil {
 		return L.isRepoFunc(fn.Parent())
 	}
+	if p == nil && fn.Synthetic != "" && fn.Signature.Recv() != nil {
+		// wrapper of a promoted method: belongs to the package of the receiver's type
+		t := fn.Signature.Recv().Type()
+		if pt, ok := t.(*types.Pointer); ok {
+			t = pt.Elem()
+		}
+		if nt, ok := t.(*types.Named); ok && nt.Obj().Pkg() != nil {
+			return strings.HasPrefix(nt.Obj().Pkg().Path(), repoModule)
+		}
+	}
 	return p != nil && strings.HasPrefix(p.Pkg.Path(), repoModule)
 }
 
